@@ -152,7 +152,7 @@ def run(seed, tier, extra_cases=None, use_cache=True):
                     continue
             resp = run_.get("resp") or {}
             blob = json.dumps([a.get("log"), b.get("log"), a.get("outcome"), b.get("outcome")])
-            if "=>" in blob or "function" in blob or "class " in blob:
+            if a.get("srctext") or b.get("srctext") or "=>" in blob or "function" in blob or "class " in blob:
                 # a function value was used as a property key / coerced to text: its SOURCE TEXT is in the log,
                 # and rewriting legitimately reformats source text (Function.prototype.toString): not comparable
                 nskip_src += 1
